@@ -33,6 +33,14 @@ TRUSTED = ['gen_hashsites translator and its typing environment', 'Spec/SetSites
 ASSUMPTIONS = ['hash(int), hash(tuple of int), hash(None), hash(bool) are seed independent in CPython 3.12',
                'set iteration order is a deterministic function of element hashes and insertion history']
 
+# categories the corpus lacks: radicals, organometallics drawn with covalent metal-donor bonds, sandwich complexes,
+# molecules whose equivalent atoms differ only by stereo labels (meso / pseudo-asymmetric / E,Z pairs), isotopes
+EDGE = ['C[CH]C |^1:1|', '[CH3] |^1:0|', 'C[N](C)[O] |^1:3|', '[O]N=O |^1:0|', 'c1ccccc1[CH2] |^1:6|', '[Li] |^1:0|',
+        'CC(C)(C)[O] |^1:4|', 'C1CN[Cu]N1', 'C1=CC=C2C=CC=N2[Fe]N1', 'O=C1O[Cu]OC1=O', 'C1C[Pd]1', '[Fe]123(C4=C1C2=C3C4)',
+        'CC(=O)O[Zn]OC(C)=O', 'N[Pt](N)(Cl)Cl', 'C[Mg]Br', 'B1(C)[H]B(C)[H]1', 'C[C@@H](O)[C@@H](C)O', 'C[C@@H](O)[C@H](C)O',
+        'O[C@H]([C@@H](O)C(O)=O)C(O)=O', 'O[C@@H]([C@@H](O)C(O)=O)C(O)=O', 'C[C@H]1CC[C@@H](C)CC1', 'C[C@H]1CC[C@H](C)CC1',
+        'C/C=C/C=C\\C', 'C/C=C/C=C/C', 'F/C=C/C=C\\F', 'C/C=C/CC/C=C\\C', 'CC=[C@]=CC', '[13CH3]C', '[2H]C([2H])O',
+        'C[C@H](N)C(=O)O.C[C@@H](N)C(=O)O', 'OC1C(O)C(O)C(O)C(O)C1O', 'C1CC1.C1CCC1']
 QUERIES = ['[C;D1]', 'C=O', 'c:c', '[N,O;D1]', 'C-C-C', '[C;r6]']
 
 
@@ -51,16 +59,25 @@ def run_worker(seed, spec_path, timeout=1500):
     return [json.loads(l) for l in p.stdout.splitlines() if l.startswith('{')]
 
 
+def ctx_seed(ctx):
+    return getattr(ctx, 'seed', 0)
+
+
 def compare(ctx, smis, seeds):
     from concurrent.futures import ThreadPoolExecutor
     with tempfile.NamedTemporaryFile('w', suffix='.json', delete=False, dir=str(VERIF / 'harness')) as f:
-        json.dump({'smiles': smis, 'queries': QUERIES}, f)
+        json.dump({'smiles': smis, 'queries': QUERIES, 'variations': False}, f)
         spec = f.name
+    with tempfile.NamedTemporaryFile('w', suffix='.json', delete=False, dir=str(VERIF / 'harness')) as f:
+        json.dump({'smiles': smis, 'queries': QUERIES, 'variations': True, 'rng': ctx_seed(ctx)}, f)
+        spec_var = f.name
     try:
         with ThreadPoolExecutor(len(seeds)) as ex:
-            results = list(ex.map(lambda s: run_worker(s, spec), seeds))
+            # history / copy variations are seed independent: only the first worker runs them
+            results = list(ex.map(lambda a: run_worker(a[1], spec_var if a[0] == 0 else spec), enumerate(seeds)))
     finally:
         os.unlink(spec)
+        os.unlink(spec_var)
     base = results[0]
     for i, rec in enumerate(base):
         s = rec['smiles']
@@ -80,10 +97,11 @@ def compare(ctx, smis, seeds):
         for res, seed in zip(results, seeds):
             r = res[i]
             for k in r.get('cached_differs', []):
-                ctx.fail(f'C19/cached-differs/{k}', f'{k} of {s}: first (uncached) and second (cached) evaluation differ',
+                ctx.count((s, 'history', k))
+                ctx.fail(f'C19/cached-differs/{k}', f'{k.split(":")[0]} of {s} depends on what was evaluated before ({k.split(":")[1]}): uncached and cached evaluation differ',
                          {'kind': 'cached', 'smiles': s, 'field': k, 'seeds': [seed]})
             for k in r.get('copy_differs', []):
-                ctx.fail(f'C19/copy-differs/{k}', f'{k} of {s}: molecule and its copy differ',
+                ctx.fail(f'C19/copy-differs/{k}', f'{k.split(":")[1]} of {s} differs between the molecule and its copy (after {k.split(":")[0]})',
                          {'kind': 'copy', 'smiles': s, 'field': k, 'seeds': [seed]})
         ctx.dist('atoms:%d' % (len(rec['out']['order']) // 10 * 10))
         if i < 3:
@@ -94,7 +112,7 @@ def compare(ctx, smis, seeds):
 def pick(ctx):
     from .. import molgen
     n = 60 if ctx.quick else 500
-    smis = list(molgen.HANDMADE)
+    smis = list(molgen.HANDMADE) + EDGE
     allc = molgen.corpus_smiles()
     smis += [allc[i] for i in ctx.rng.sample(range(len(allc)), n)]
     return smis
